@@ -153,6 +153,9 @@ class Rules:
             self.r_expect_table(I, seg)
             self.r_nonempty_errpair(I, seg)
             self.r_spec_purity(I, seg)
+            self.r_offsets(I, seg)
+            self.r_spell(I, seg)
+            self.r_lookbehind_datalines(I, seg)
 
     # -- R-NONEMPTY and R-ERR-PAIR ---------------------------------------------------------------
     MAY_BE_EMPTY = {"EOF", "MacroSep", "MacroStringEmpty", "SEMI", "LPAREN", "RPAREN", "ASSIGN", "COMMA", "FSLASH",
@@ -253,6 +256,182 @@ class Rules:
                 I.ob("R-ERR-PAIR", "%s|%s" % (short_fn(seg.name), k), ok, self.sites.where(e),
                      "%s is immediately followed by a zero-width %s token at the same offset" % (k, want) if ok else
                      "%s is not paired with a zero-width %s recovery token at the same offset (%s)" % (k, want, why))
+
+    # -- R-LOOKBEHIND (datalines): statement start = previous DEFAULT token is absent or ';' ----------------
+    def r_lookbehind_datalines(self, I, seg):
+        if short_fn(seg.name) != "lex_datalines" or seg.out.kind != "val":
+            return
+        st = seg.st
+        evs = seg.events[seg.start:]
+        lbs = [e for e in evs if e.kind == "lookbehind" and e.d.get("owner") == seg.name]
+        self.bump("R-DATALINES-START", "datalines_paths", "lex_datalines")
+        key = "lex_datalines|statement-start"
+        if not lbs or lbs[0].d.get("accessor") != "default":
+            I.ob("R-DATALINES-START", key, False, F.file_line(self.fx.bodies[seg.name]["span"]),
+                 "lex_datalines decides 'statement start' without looking at the previous DEFAULT-channel token "
+                 "(hidden tokens such as catch-all characters must not matter, and 'no previous token' must equal ';')")
+            return
+        v = lbs[0].d.get("value")
+        rejected = isinstance(seg.out.val, Const) and seg.out.val.v is False
+        i_lb = evs.index(lbs[0])
+        looked_ahead = any(e.kind in ("la_consume", "consume", "advance_at_eof", "peek") for e in evs[i_lb + 1:])
+        if lbs[0].d.get("own"):
+            return
+        f_opt = st.vfacts.get(v.key()) if v is not None else None
+        is_none = f_opt is not None and ((f_opt[0] is not None and set(f_opt[0]) == {"None"}) or "Some" in f_opt[1])
+        tt = Term("field:token_type", (Term("Some.0", (v,), None),))
+        f_tt = st.vfacts.get(tt.key())
+        is_semi = f_tt is not None and f_tt[0] is not None and set(f_tt[0]) == {"SEMI"}
+        not_semi = f_tt is not None and ("SEMI" in f_tt[1] or (f_tt[0] is not None and "SEMI" not in f_tt[0]))
+        if rejected and not looked_ahead:
+            ok = not_semi and not is_none
+            I.ob("R-DATALINES-START", key, ok, self.sites.where(lbs[0]),
+                 "datalines is rejected before the forward check only when the previous DEFAULT token exists and is not ';'" if ok else
+                 "lex_datalines rejects a datalines keyword before the forward check although the previous DEFAULT token is %s" % ("absent" if is_none else "';' or untested"))
+        else:
+            ok = is_none or is_semi
+            I.ob("R-DATALINES-START", key, ok, self.sites.where(lbs[0]),
+                 "the forward check / datalines body is reached only when no DEFAULT token precedes or it is ';'" if ok else
+                 "lex_datalines proceeds past the look-behind without establishing 'no previous DEFAULT token or ;'")
+
+    # -- R-SPELL: symbol tokens are exactly their symbol ------------------------------------------------------
+    def spellings(self):
+        if "_spell" not in self.__dict__:
+            import os
+            from .report import VERIF
+            with open(os.path.join(VERIF, "tables", "spellings.json")) as f:
+                self._spell = json.load(f)
+        return self._spell
+
+    def r_spell(self, I, seg):
+        from . import lea_prims
+        st = seg.st
+        evs = seg.events
+        tab = self.spellings()
+        for idx in range(seg.start, len(evs)):
+            e = evs[idx]
+            if e.kind != "emit" or e.d.get("owner") != seg.name:
+                continue
+            ts = variant_set(I, st, e.d["type"])
+            if not ts or len(ts) != 1:
+                continue
+            t = next(iter(ts))
+            if t not in tab["types"]:
+                continue
+            sn = lea_prims.snap_of(e.d.get("byte"))
+            if sn is None:
+                continue
+            cons = []
+            for j in range(idx - 1, -1, -1):
+                x = evs[j]
+                if x.kind == "consume":
+                    if x.d.get("pos", 0) < sn[2]:
+                        break
+                    cons.append(x)
+                elif x.kind in ("cursor_restore",):
+                    break
+            cons.reverse()
+            if not cons:
+                continue   # zero-width (recovery) token: R-NONEMPTY / R-ERR-PAIR
+            chars = []
+            exact = True
+            for c in cons:
+                if c.d.get("chars") is None:
+                    exact = False
+                    break
+                chars += c.d["chars"]
+            key = "%s|%s" % (short_fn(seg.name), t)
+            self.bump("R-SPELL", "emissions", key)
+            if not exact:
+                cls = advance_class(I, st, [c for c in cons if c.d.get("chars") is None][0], evs[seg.start:])
+                ok = t == "AMP" and cls is not None and cls.get("cls") == "&"
+                I.ob("R-SPELL", key, ok, self.sites.where(e), "run of '&' counted by is_macro_amp" if ok else
+                     "%s emitted over characters skipped with advance_by without spelling evidence" % t)
+                continue
+            sets = []
+            for ch in chars:
+                cf = st.cs.get(ch.key())
+                sets.append(cf.inc if cf is not None else None)
+            if None in sets and len(cons) == 1 and cons[0].d.get("via") == "advance_by":
+                lit = str_evidence(st, cons[0].d.get("pos"), len(chars))
+                if lit is not None:
+                    sets = [frozenset([c]) for c in lit]   # the path compared exactly these chars with a literal
+            # contiguous position labels <=> no unknown stretch of input inside the token
+            poss = [ch.abspos for ch in chars]
+            widened = any(b - a != 1 for a, b in zip(poss, poss[1:])) or (poss and poss[0] != sn[2])
+            ok = False
+            why = ""
+            spells = tab["types"][t]
+            if any(sp.endswith("+") for sp in spells):
+                base = spells[0][0]
+                ok = all(s_ is not None and s_ <= {base} for s_ in sets)
+                why = "one or more %r" % base
+            elif None in sets:
+                why = "a consumed character is unconstrained on this path"
+            else:
+                cands = list(spells)
+                if t in tab["percent_prefix_ok"]:
+                    cands += ["%" + sp for sp in spells]
+                import itertools
+                if not widened and len(sets) <= 4:
+                    combos = ["".join(c) for c in itertools.product(*[sorted(s_) for s_ in sets])]
+                    ok = all(c in cands for c in combos)
+                    why = "consumed text %s" % combos[:4]
+                else:
+                    why = "token text spans a widened loop"
+            I.ob("R-SPELL", key, ok, self.sites.where(e),
+                 "%s is emitted over exactly one of its spellings (%s)" % (t, why) if ok else
+                 "%s is emitted over text that is not one of its spellings %s: %s; conditions: %s" % (t, spells, why, "; ".join(st.conds[-4:])[:200]))
+
+    # -- R-OFFSET-PROVENANCE / R-EMIT-ORDER / R-ERR-ORDER ------------------------------------------------
+    def r_offsets(self, I, seg):
+        """Every token's (byte, char) start is one cursor snapshot; starts never decrease along a path; error
+        offsets are one snapshot and never decrease either."""
+        from . import lea_prims
+        st = seg.st
+        if seg.name != "Lexer::lex_token" and seg.name != "Lexer::finalize_lexing":
+            # positions are compared along whole steps; provenance is checked per owner below
+            pass
+        last_tok = None
+        last_err = None
+        for e in seg.events[seg.start:]:
+            if e.kind == "cursor_restore" or e.kind == "buffer_rollback":
+                last_tok = None
+                last_err = None
+            if e.kind == "emit":
+                b, c = lea_prims.snap_of(e.d.get("byte")), lea_prims.snap_of(e.d.get("start"))
+                if e.d.get("owner") == seg.name:
+                    key = "%s|%s" % (short_fn(seg.name), self.sites.key(e).split("|", 1)[-1])
+                    self.bump("R-OFFSET-PROVENANCE", "emit_sites", key)
+                    ok = b is not None and c is not None and b[0] == "byte" and c[0] == "char" and b[1:] == c[1:]
+                    I.ob("R-OFFSET-PROVENANCE", key, ok, self.sites.where(e),
+                         "token start byte/char offsets are one cursor snapshot" if ok else
+                         "token start offsets are not one cursor snapshot (byte=%r start=%r): byte and char positions of the token disagree"
+                         % (e.d.get("byte"), e.d.get("start")))
+                if b is not None:
+                    if last_tok is not None and b[1] == last_tok[1] and b[2] < last_tok[2] and seg.name in ("Lexer::lex_token", "Lexer::finalize_lexing"):
+                        I.ob("R-EMIT-ORDER", "%s|decreasing" % short_fn(e.d.get("owner") or "?"), False, self.sites.where(e),
+                             "a token is emitted with a start offset older than the previous token's start (snapshot labels %d < %d): "
+                             "start offsets decrease" % (b[2], last_tok[2]))
+                    last_tok = b
+            if e.kind == "error":
+                info = e.d.get("info")
+                if isinstance(info, Enum):
+                    b = lea_prims.snap_of(info.fields.get("at_byte_offset"))
+                    c = lea_prims.snap_of(info.fields.get("at_char_offset"))
+                    if e.d.get("owner") == seg.name:
+                        ok = b is not None and c is not None and b[1:] == c[1:]
+                        I.ob("R-OFFSET-PROVENANCE", "%s|error-offsets" % short_fn(seg.name), ok, self.sites.where(e),
+                             "error byte/char offsets are one cursor snapshot" if ok else "error offsets are not one cursor snapshot")
+                    if b is not None:
+                        if last_err is not None and b[1] == last_err[1] and b[2] < last_err[2] and seg.name in ("Lexer::lex_token", "Lexer::finalize_lexing"):
+                            I.ob("R-ERR-ORDER", "%s|decreasing" % short_fn(e.d.get("owner") or "?"), False, self.sites.where(e),
+                                 "an error is recorded at an offset before the previously recorded error (labels %d < %d): the error list is not in source order"
+                                 % (b[2], last_err[2]))
+                        last_err = b
+        if seg.name == "Lexer::lex_token":
+            I.ob("R-EMIT-ORDER", "lex_token|paths", True, "", "token start snapshots are non-decreasing along the step")
+            I.ob("R-ERR-ORDER", "lex_token|paths", True, "", "error offsets are non-decreasing along the step")
 
     # -- R-SPEC-PURITY: no diagnostics while a checkpoint is live ------------------------------------
     def r_spec_purity(self, I, seg):
@@ -963,6 +1142,8 @@ def path_rules(fx, I, R, mode, ckpt, outs):
             seeds.append(st)
         if mode == "Default":
             pending_rule(fx, I, ob, o)
+        if mode in ("MacroCallValue", "MacroStrQuotedExpr", "MacroEval"):
+            depth_guard_rule(I, ob, mode, o)
         # R-PROGRESS: every lex_token path consumes input or changes the mode stack
         # position labels are monotone in consumption; a rollback rewinds to the snapshot's label
         consumed = st.cursors["main"].pos > 0
@@ -983,6 +1164,39 @@ def path_rules(fx, I, R, mode, ckpt, outs):
     obs[("_meta", "regions|" + mode)] = {"rule": "_meta", "key": "regions|" + mode, "ok": True, "site": "",
                                           "detail": json.dumps(reg), "n": 1}
     return obs
+
+
+def depth_guard_rule(I, ob, mode, o):
+    """R-DEPTH-GUARD: an argument / expression mode is terminated by ',' or ')' only at parenthesis depth 0
+    (MacroEval: ',' also when parentheses do not mask commas)."""
+    st = o.st
+    for e in st.events:
+        if e.kind != "pop" or not e.d.get("known"):
+            continue
+        m = e.d.get("mode")
+        if not (isinstance(m, Enum) and m.variant == mode):
+            continue
+        pos = e.d.get("pos")
+        cf = st.cs.get(("LA", I.stream_of(st, "main"), pos))
+        if cf is None or cf.inc is None or not (cf.inc <= {",", ")"}):
+            return
+        ch = "/".join(sorted(cf.inc))
+        zero = False
+        nomask = False
+        for k, v in st.bfacts.items():
+            if not (isinstance(k, tuple) and k and k[0] == "eq"):
+                continue
+            r = repr(k)
+            if ("%s.pnl@entry" % mode) in r and "('C', 'int', 0)" in r and v is True:
+                zero = True
+            if "bin:BitAnd" in r and "('C', 'int', 16)" in r and "('C', 'int', 0)" in r and v is True:
+                nomask = True
+        ok = zero or (mode == "MacroEval" and "," in cf.inc and ")" not in cf.inc and nomask)
+        ob("R-DEPTH-GUARD", "%s|%s" % (mode, ch), ok, F.file_line(e.d.get("osite") or e.site or "?"),
+           "mode %s is closed by %r only under a depth-zero test" % (mode, ch) if ok else
+           "mode %s is closed by a %r although the path never established parenthesis depth 0: a delimiter nested in "
+           "parentheses ends the argument; conditions: %s" % (mode, ch, "; ".join(st.conds[-6:])[:300]))
+        return
 
 
 def pending_rule(fx, I, ob, o):
